@@ -39,7 +39,7 @@ class Ctx:
         return self._facts[config]
 
     def harness(self, name, **kw):
-        if name not in self._harness:
+        if name not in self._harness or kw.get("hdir"):
             res, info = extract.extract_harness(name, repo=self.repo, **kw)
             self.extract_info.append(info)
             self._harness[name] = {k: Facts(v) for k, v in res.items()}
